@@ -81,8 +81,14 @@ func c18Calls(r *gen.Rng) ([]apiCall, func() string) {
 	pat := convexPoly(r, 30, 6, true)
 	rect := clip.NewRect64(-40, -30, 60, 55)
 	rectD := clip.NewRectD(-4, -3, 6, 5.5)
+	// one-point paths and a per-set explicit arc tolerance / delta (drawn last, so the inputs above are unchanged): the
+	// arc-step tables behind round caps and round joins depend on tolerance/delta, so a table shared between calls
+	// shows up as a wrong result on another input set, not only as a race report (seeded fault C18f)
+	dots := Paths{{{X: r.Range(-300, 300), Y: r.Range(-300, 300)}}, {{X: r.Range(-300, 300), Y: r.Range(-300, 300)}}}
+	dotDelta := r.FloatRange(8, 40)
+	dotTol := r.FloatRange(0.02, 2)
 	inputsDigest := func() string {
-		return run.Digest([]any{subj, clp, latS, latC, nest, open, bigS, bigC, sD, cD, nD, pat, dup})
+		return run.Digest([]any{subj, clp, latS, latC, nest, open, bigS, bigC, sD, cD, nD, pat, dup, dots})
 	}
 	d := func(v any) string { return run.Digest(v) }
 	calls := []apiCall{
@@ -191,6 +197,20 @@ func c18Calls(r *gen.Rng) ([]apiCall, func() string) {
 			return d([]any{a, b, flattenTree(t.PolyPathBase)})
 		}},
 		{"InflatePaths64/dup", func() string { return d(clip.InflatePaths64(dup, 6, clip.Round, clip.Polygon)) }},
+		{"InflatePaths64/dot", func() string {
+			return d([]any{clip.InflatePaths64(dots, dotDelta, clip.Round, clip.RoundET, clip.WithArcTolerance(dotTol)),
+				clip.InflatePaths64(dots, dotDelta/2, clip.Square, clip.SquareET),
+				clip.InflatePaths64(nest, dotDelta/3, clip.Round, clip.Polygon, clip.WithArcTolerance(dotTol)),
+				clip.InflatePathsD(toD(dots, 10), dotDelta/10, clip.Round, clip.RoundET, clip.WithPrecision(1), clip.WithArcTolerance(dotTol/10))})
+		}},
+		{"ClipperOffset/dot", func() string {
+			co := clip.NewClipperOffset(2, dotTol, false, false)
+			co.AddPaths(dots, clip.Round, clip.RoundET)
+			co.AddPaths(open, clip.Round, clip.RoundET)
+			a := Paths{}
+			co.Execute64(dotDelta, &a)
+			return d(a)
+		}},
 		{"ClipperOffset/dup", func() string {
 			co := clip.NewClipperOffset(2, 0.25, false, false)
 			co.AddPaths(dup, clip.Miter, clip.Polygon)
